@@ -30,7 +30,7 @@ Three places where the code under test has a repaired variant are flags of the c
 * `exitWake`  — `muggle_evloop_exit` on the `tid == self` branch also wakes the loop
                 (fixes/C14-exit-before-run-lost.patch);
 * `addFail`   — `on_wake` releases a handed-over context whose registration failed instead of
-                dropping it (fixes/C14-on-wake-add-ctx-failure.patch);
+                dropping it (fixes/C15-on-wake-add-failure.patch);
 * `lateQueue` — `handle_destroy` releases contexts still queued (handed over after `on_exit` drained
                 the queue) instead of leaking them (fixes/C14-late-handover-leak.patch).
 -/
@@ -41,7 +41,7 @@ inductive Backend where
   | poll | epoll | select
   deriving Repr, DecidableEq
 
-/-- event sources the loop can be woken by: the eventfd, the I/O context `c0` -/
+/-- event sources the loop can be woken by: the eventfd, the pre-registered I/O context -/
 inductive Src where
   | ev | io
   deriving Repr, DecidableEq
@@ -59,6 +59,30 @@ structure Fix where
   addFail   : Bool := true
   lateQueue : Bool := true
   deriving Repr, DecidableEq
+
+/-- the configuration of a run: never changes -/
+structure Cfg where
+  backend : Backend
+  cap     : Nat            -- `hints_max_fd`: registration capacity of the poll back-end
+  ioCtx   : Bool           -- one context is registered by the creator before anything runs
+  fix     : Fix
+  n       : Nat
+  role    : Nat → Role
+  lt      : Nat            -- index of the loop thread
+
+/-- a context: (handing thread, position in its program); the I/O context is `(n, 0)` -/
+abbrev Ctx := Nat × Nat
+
+def Cfg.ioId (cfg : Cfg) : Ctx := (cfg.n, 0)
+
+/-- the descriptor of the context is invalid (`muggle_ev_fd_set_nonblock` fails) -/
+def Cfg.isBad (cfg : Cfg) (c : Ctx) : Bool :=
+  match cfg.role c.1 with
+  | .hand prog => !(prog.getD c.2 true)
+  | _ => false
+
+def Cfg.cname (cfg : Cfg) (c : Ctx) : String :=
+  if c.1 = cfg.n then "cio" else s!"c{c.1}.{c.2}"
 
 inductive Pc where
   -- loop thread
@@ -83,10 +107,10 @@ inductive Pc where
   | eWake                   -- about to write the eventfd
   -- waker
   | wWrite (left : Nat)     -- `left` wake-ups still to issue (≥ 1)
-  -- hand-over of context `c`, `rest` = contexts still to hand over afterwards
-  | hLock (c : Nat) (rest : List Bool)
-  | hUnlock (c : Nat) (rest : List Bool)
-  | hWake (c : Nat) (rest : List Bool)
+  -- hand-over of the thread's `i`-th context; `rest` = contexts still to hand over afterwards
+  | hLock (i : Nat) (rest : List Bool)
+  | hUnlock (i : Nat) (rest : List Bool)
+  | hWake (i : Nat) (rest : List Bool)
   -- I/O
   | iWrite (left : Nat)
   | done
@@ -96,39 +120,28 @@ def WAKE : Nat := 2
 def EXIT : Nat := 1
 
 structure St where
-  -- configuration (never changes)
-  backend : Backend
-  cap     : Nat
-  ioCtx   : Bool
-  fix     : Fix
-  n       : Nat
-  role    : Nat → Role
-  lt      : Nat                    -- index of the loop thread
   -- shared memory of the code under test
   tid     : Nat := 0               -- `evloop->tid` (as a thread index; thread 0 created the loop)
   toExit  : Nat := 0               -- `evloop->to_exit`
   mtx     : Option Nat := none     -- owner of `handle->mtx`
-  queue   : List Nat := []         -- `handle->ctx_queue`
-  reg     : List Nat := []         -- `evloop->ctx_list` (registered contexts, in list order)
+  queue   : List Ctx := []         -- `handle->ctx_queue`
+  reg     : List Ctx := []         -- `evloop->ctx_list` (registered contexts, in list order)
   -- kernel objects
   counter : Nat := 0               -- eventfd counter
   ioPend  : Nat := 0               -- bytes waiting in the I/O context's socket
   seq     : Nat := 0               -- harness: number of wake-ups of pollers so far (futex word `evfd`)
-  evAdded : Bool := false          -- epoll: the eventfd has been added to the epoll set
+  evAdded : Bool := false          -- the loop has started (epoll: the eventfd is in the epoll set)
   rdl     : List Src := []         -- epoll: ready list
   -- control
   pc      : Nat → Pc
   plan    : List Src := []         -- loop thread: sources reported by the last poll, still to dispatch
   cbWakes : Nat := 0               -- invocations of the user's wake callback so far
-  -- contexts
-  nextCtx : Nat := 0
-  bad     : List Nat := []         -- contexts whose descriptor is invalid
   -- ghost
   unserved : Nat := 0              -- wake-up requests since the wake callback was last entered
-  handed   : List Nat := []        -- contexts enqueued by hand-over threads, in order
-  regLog   : List Nat := []        -- contexts registered by on_wake, in order
-  relLog   : List Nat := []        -- contexts released (cb_release; close; cb_free), in order
-  lost     : List Nat := []        -- contexts dropped by on_wake (neither registered nor released)
+  handed   : List Ctx := []        -- contexts enqueued by hand-over threads, in order
+  regLog   : List Ctx := []        -- contexts registered by on_wake, in order
+  relLog   : List Ctx := []        -- contexts released (cb_release; close; cb_free), in order
+  lost     : List Ctx := []        -- contexts dropped by on_wake (neither registered nor released)
   uaf      : Nat := 0              -- touches of a context after its release
   exitCalls : Nat := 0             -- completed calls of `muggle_evloop_exit` by exit threads
   clears   : Nat := 0              -- executions of the clear phase (cb_clear over the list)
@@ -140,233 +153,238 @@ def initPc : Role → Pc
   | .loop _ => .runStart
   | .exit => .eRead
   | .waker k => if k = 0 then .done else .wWrite k
-  | .hand _ => .done          -- replaced by `allocFirst`
+  | .hand [] => .done
+  | .hand (_ :: rest) => .hLock 0 rest
   | .io k => if k = 0 then .done else .iWrite k
-
-/-- hand-over threads create their first context before anything runs, in thread order -/
-def allocFirst (roles : List Role) (t : Nat) (s : St) (notes : List String) : St × List String :=
-  match roles with
-  | [] => (s, notes)
-  | r :: rs =>
-    match r with
-    | .hand (g :: rest) =>
-      let c := s.nextCtx
-      let s1 := { s with nextCtx := c + 1, bad := if g then s.bad else c :: s.bad,
-                         pc := upd s.pc t (.hLock c rest) }
-      allocFirst rs (t + 1) s1 (notes ++ [s!"T{t} note hand c{c}"])
-    | _ => allocFirst rs (t + 1) s notes
 
 def findLoop : List Role → Nat → Nat
   | [], i => i
   | .loop _ :: _, i => i
   | _ :: rs, i => findLoop rs (i + 1)
 
-def mkInit (b : Backend) (cap : Nat) (io : Bool) (fix : Fix) (roles : List Role) : St × List String :=
-  let s0 : St :=
-    { backend := b, cap := cap, ioCtx := io, fix := fix, n := roles.length,
-      role := fun t => roles.getD t (.waker 0), lt := findLoop roles 0,
-      pc := fun t => initPc (roles.getD t (.waker 0)),
-      reg := if io then [0] else [], nextCtx := if io then 1 else 0 }
-  allocFirst roles 0 s0 []
+def mkCfg (b : Backend) (cap : Nat) (io : Bool) (fix : Fix) (roles : List Role) : Cfg :=
+  { backend := b, cap := cap, ioCtx := io, fix := fix, n := roles.length,
+    role := fun t => roles.getD t (.waker 0), lt := findLoop roles 0 }
+
+def mkInit (cfg : Cfg) : St :=
+  { pc := fun t => if t < cfg.n then initPc (cfg.role t) else .done,
+    reg := if cfg.ioCtx then [cfg.ioId] else [] }
+
+/-- hand-over threads create their first context before anything runs -/
+def initNotes (cfg : Cfg) : List String :=
+  (List.range cfg.n).filterMap fun t =>
+    match cfg.role t with
+    | .hand (_ :: _) => some s!"T{t} note hand {cfg.cname (t, 0)}"
+    | _ => none
 
 /-! ## Helpers -/
 
-def St.enabled (s : St) (t : Nat) : Bool :=
-  t < s.n &&
+def St.enabled (cfg : Cfg) (s : St) (t : Nat) : Bool :=
+  t < cfg.n &&
   match s.pc t with
   | .done => false
   | .blocked => false
-  | .wkLock | .exLock | .hLock _ _ => s.mtx.isNone
+  | .wkLock => s.mtx.isNone
+  | .exLock => s.mtx.isNone
+  | .hLock _ _ => s.mtx.isNone
   | _ => true
 
-def St.ready (s : St) : Src → Bool
+def St.ready (cfg : Cfg) (s : St) : Src → Bool
   | .ev => s.counter > 0
-  | .io => s.ioCtx && s.ioPend > 0
+  | .io => cfg.ioCtx && s.ioPend > 0
 
 /-- what the real poll / epoll_wait / select call (zero time-out) reports, in dispatch order -/
-def harvest (s : St) : St × List Src :=
-  match s.backend with
-  | .poll => (s, (if s.ready .io then [Src.io] else []) ++ (if s.ready .ev then [Src.ev] else []))
-  | .select => (s, (if s.ready .ev then [Src.ev] else []) ++ (if s.ready .io then [Src.io] else []))
-  | .epoll => ({ s with rdl := [] }, s.rdl.filter s.ready)
+def harvest (cfg : Cfg) (s : St) : List Src :=
+  match cfg.backend with
+  | .poll => (if s.ready cfg .io then [Src.io] else []) ++ (if s.ready cfg .ev then [Src.ev] else [])
+  | .select => (if s.ready cfg .ev then [Src.ev] else []) ++ (if s.ready cfg .io then [Src.io] else [])
+  | .epoll => s.rdl.filter (s.ready cfg)
+
+/-- epoll_wait empties the ready list -/
+def harvested (cfg : Cfg) (s : St) : St :=
+  match cfg.backend with
+  | .epoll => { s with rdl := [] }
+  | _ => s
+
+def inSet (cfg : Cfg) (s : St) : Src → Bool
+  | .ev => s.evAdded
+  | .io => cfg.ioCtx
 
 /-- a writer made `x` readable: wake the parked loop, bump the sequence word, epoll ready list -/
-def signal (s : St) (x : Src) : St × Nat :=
-  let woke := if s.pc s.lt = .blocked then 1 else 0
-  let inSet : Bool := match x with | .ev => s.evAdded | .io => s.ioCtx
-  let rdl := if s.backend = .epoll ∧ inSet = true ∧ x ∉ s.rdl then s.rdl ++ [x] else s.rdl
-  ({ s with seq := s.seq + 1, rdl := rdl,
-            pc := if s.pc s.lt = .blocked then upd s.pc s.lt .woken else s.pc }, woke)
+def signal (cfg : Cfg) (s : St) (x : Src) : St :=
+  { s with seq := s.seq + 1,
+           rdl := if cfg.backend = .epoll ∧ inSet cfg s x = true ∧ x ∉ s.rdl then s.rdl ++ [x] else s.rdl,
+           pc := if s.pc cfg.lt = .blocked then upd s.pc cfg.lt .woken else s.pc }
+
+def woke (cfg : Cfg) (s : St) : Nat := if s.pc cfg.lt = .blocked then 1 else 0
 
 /-- `muggle_ev_signal_wakeup`: write 1 to the eventfd -/
-def evWrite (s : St) (t : Nat) : St × String :=
-  let (s1, woke) := signal s .ev
-  ({ s1 with counter := s1.counter + 1, unserved := s1.unserved + 1 },
-   s!"T{t} futex-wake evfd all woke={woke}")
+def evWrite (cfg : Cfg) (s : St) : St :=
+  let s1 := signal cfg s .ev
+  { s1 with counter := s1.counter + 1, unserved := s1.unserved + 1 }
 
-def releaseNotes (t : Nat) (cs : List Nat) : List String :=
-  cs.flatMap fun c => [s!"T{t} note cb_release c{c}", s!"T{t} note cb_free c{c}"]
+def evWriteNote (cfg : Cfg) (s : St) (t : Nat) : String :=
+  s!"T{t} futex-wake evfd all woke={woke cfg s}"
+
+def releaseNotes (cfg : Cfg) (t : Nat) (cs : List Ctx) : List String :=
+  cs.flatMap fun c => [s!"T{t} note cb_release {cfg.cname c}", s!"T{t} note cb_free {cfg.cname c}"]
 
 /-- `muggle_socket_evloop_release_ctx` on each of `cs` (reference count 1 → 0) -/
-def release (s : St) (cs : List Nat) : St :=
+def release (s : St) (cs : List Ctx) : St :=
   { s with relLog := s.relLog ++ cs, uaf := s.uaf + (cs.filter (· ∈ s.relLog)).length }
 
 /-- dispatch the reported sources up to the next scheduling point of the loop thread:
 a readable I/O context is read by the message callback (no scheduling point), the eventfd leads
 to `handle_wakeup` (first step: `clearup`), an exhausted plan to the exit check -/
-def advance (s : St) (t : Nat) : List Src → St × List String
-  | [] => ({ s with plan := [], pc := upd s.pc t .chkExit }, [])
-  | .ev :: rest => ({ s with plan := rest, pc := upd s.pc t .clearup }, [])
+def advance (cfg : Cfg) (s : St) (t : Nat) : List Src → St
+  | [] => { s with plan := [], pc := upd s.pc t .chkExit }
+  | .ev :: rest => { s with plan := rest, pc := upd s.pc t .clearup }
   | .io :: rest =>
-    let u := if 0 ∈ s.relLog then 1 else 0
-    let (s', evs) := advance { s with ioPend := 0, uaf := s.uaf + u } t rest
-    (s', s!"T{t} note cb_msg c0 n={s.ioPend}" :: evs)
+    advance cfg { s with ioPend := 0, uaf := s.uaf + (if cfg.ioId ∈ s.relLog then 1 else 0) } t rest
+
+def advanceNotes (t : Nat) (ioPend : Nat) : List Src → List String
+  | [] => []
+  | .ev :: _ => []
+  | .io :: rest => s!"T{t} note cb_msg cio n={ioPend}" :: advanceNotes t 0 rest
 
 /-- the real poll call inside our wrapper: dispatch if something is ready, else prepare to park -/
-def pollNow (s : St) (t : Nat) : St × List String :=
-  let (s1, plan) := harvest s
-  match plan with
-  | [] => ({ s1 with pc := upd s1.pc t (.fwait s1.seq) }, [])
-  | _ => advance s1 t plan
+def pollNow (cfg : Cfg) (s : St) (t : Nat) : St :=
+  match harvest cfg s with
+  | [] => { harvested cfg s with pc := upd s.pc t (.fwait s.seq) }
+  | p :: ps => advance cfg (harvested cfg s) t (p :: ps)
+
+def pollNotes (cfg : Cfg) (s : St) (t : Nat) : List String := advanceNotes t s.ioPend (harvest cfg s)
 
 /-- `muggle_evloop_add_ctx` called by thread `t` for context `c` -/
-def addOk (s : St) (t c : Nat) : Bool :=
-  s.tid = t && !(c ∈ s.bad) && !(s.backend = .poll && s.reg.length ≥ s.cap)
+def addOk (cfg : Cfg) (s : St) (t : Nat) (c : Ctx) : Bool :=
+  s.tid = t && !(cfg.isBad c) && !(cfg.backend = .poll && s.reg.length ≥ cfg.cap)
 
 /-- return from `muggle_evloop_exit` -/
-def exitReturn (s : St) (t : Nat) : St × List String :=
-  match s.role t with
-  | .loop _ => ({ s with pc := upd s.pc t .wkChk }, [])
-  | _ => ({ s with pc := upd s.pc t .done, exitCalls := s.exitCalls + 1 }, [s!"T{t} note exit-done"])
+def exitReturn (cfg : Cfg) (s : St) (t : Nat) : St :=
+  if t = cfg.lt then { s with pc := upd s.pc t .wkChk }
+  else { s with pc := upd s.pc t .done, exitCalls := s.exitCalls + 1 }
+
+def exitNotes (cfg : Cfg) (t : Nat) : List String :=
+  if t = cfg.lt then [] else [s!"T{t} note exit-done"]
+
+def selfExitNow (cfg : Cfg) (t k : Nat) : Bool :=
+  match cfg.role t with
+  | .loop a => a != 0 && a == k
+  | _ => false
 
 /-! ## The step function -/
 
-def step (s : St) (tok : Tok) : Option (St × List String) :=
-  let t := tok.tid
-  if !s.enabled t then none else
-  match s.pc t with
+/-- the step of thread `t` standing at `pc` (the caller checked that it is enabled) -/
+def stepAt (cfg : Cfg) (s : St) (t : Nat) : Pc → St × List String
   | .runStart =>
-    let rdl := if s.backend = .epoll ∧ s.counter > 0 ∧ Src.ev ∉ s.rdl then s.rdl ++ [Src.ev] else s.rdl
-    some ({ s with tid := t, evAdded := true, rdl := rdl, pc := upd s.pc t .poll },
-          [s!"T{t} w tid tid{t}"])
-  | .poll =>
-    let (s', evs) := pollNow s t
-    some (s', s!"T{t} note poll" :: evs)
+    ({ s with tid := t, evAdded := true,
+              rdl := if cfg.backend = .epoll ∧ s.counter > 0 ∧ Src.ev ∉ s.rdl then s.rdl ++ [Src.ev] else s.rdl,
+              pc := upd s.pc t .poll },
+     [s!"T{t} w tid tid{t}"])
+  | .poll => (pollNow cfg s t, s!"T{t} note poll" :: pollNotes cfg s t)
   | .fwait s0 =>
     if s.seq = s0 then
-      some ({ s with pc := upd s.pc t .blocked }, [s!"T{t} futex-wait evfd {s0} blocked"])
-    else
-      let (s', evs) := pollNow s t
-      some (s', s!"T{t} futex-wait evfd {s0} eagain" :: evs)
-  | .woken =>
-    let (s', evs) := pollNow s t
-    some (s', s!"T{t} futex-resume evfd" :: evs)
+      ({ s with pc := upd s.pc t .blocked }, [s!"T{t} futex-wait evfd {s0} blocked"])
+    else (pollNow cfg s t, s!"T{t} futex-wait evfd {s0} eagain" :: pollNotes cfg s t)
+  | .woken => (pollNow cfg s t, s!"T{t} futex-resume evfd" :: pollNotes cfg s t)
   | .clearup =>
-    let v : Int := if s.counter = 0 then -1 else s.counter
-    some ({ s with counter := 0, pc := upd s.pc t .wkLock },
-          [s!"T{t} note clearup", s!"T{t} note evfd-read v={v}"])
+    ({ s with counter := 0, pc := upd s.pc t .wkLock },
+     [s!"T{t} note clearup", s!"T{t} note evfd-read v={if s.counter = 0 then (-1 : Int) else s.counter}"])
   | .wkLock =>
-    some ({ s with mtx := some t, unserved := 0,
-                   pc := upd s.pc t (if s.queue.isEmpty then .wkUnlock else .wkAdd) },
-          [s!"T{t} mtx-lock mtx"])
+    ({ s with mtx := some t, unserved := 0,
+              pc := upd s.pc t (if s.queue.isEmpty then .wkUnlock else .wkAdd) },
+     [s!"T{t} mtx-lock mtx"])
   | .wkAdd =>
     match s.queue with
-    | [] => some ({ s with pc := upd s.pc t .wkUnlock }, [s!"T{t} r tid tid{s.tid}"])  -- unreachable
+    | [] => ({ s with pc := upd s.pc t .wkUnlock }, [s!"T{t} r tid tid{s.tid}"])  -- unreachable
     | c :: q =>
       let nxt : Pc := if q.isEmpty then .wkUnlock else .wkAdd
       let u := if c ∈ s.relLog then 1 else 0
-      let ev := s!"T{t} r tid tid{s.tid}"
-      if addOk s t c then
-        some ({ s with queue := q, reg := s.reg ++ [c], regLog := s.regLog ++ [c], uaf := s.uaf + u,
-                       pc := upd s.pc t nxt },
-              [ev, s!"T{t} note cb_add_ctx c{c} reg=1"])
-      else if s.fix.addFail then
-        some ({ release s [c] with queue := q, pc := upd s.pc t nxt }, ev :: releaseNotes t [c])
+      if addOk cfg s t c then
+        ({ s with queue := q, reg := s.reg ++ [c], regLog := s.regLog ++ [c], uaf := s.uaf + u,
+                  pc := upd s.pc t nxt },
+         [s!"T{t} r tid tid{s.tid}", s!"T{t} note cb_add_ctx {cfg.cname c} reg=1"])
+      else if cfg.fix.addFail then
+        ({ release s [c] with queue := q, pc := upd s.pc t nxt },
+         s!"T{t} r tid tid{s.tid}" :: releaseNotes cfg t [c])
       else
-        some ({ s with queue := q, lost := s.lost ++ [c], uaf := s.uaf + u, pc := upd s.pc t nxt },
-              [ev, s!"T{t} note cb_add_ctx c{c} reg=0"])
+        ({ s with queue := q, lost := s.lost ++ [c], uaf := s.uaf + u, pc := upd s.pc t nxt },
+         [s!"T{t} r tid tid{s.tid}", s!"T{t} note cb_add_ctx {cfg.cname c} reg=0"])
   | .wkUnlock =>
-    let k := s.cbWakes + 1
-    let selfExit : Bool := match s.role t with | .loop a => a != 0 && a == k | _ => false
-    some ({ s with mtx := none, cbWakes := k, pc := upd s.pc t (if selfExit then .eRead else .wkChk) },
-          [s!"T{t} mtx-unlock mtx", s!"T{t} note cb_wake"])
+    ({ s with mtx := none, cbWakes := s.cbWakes + 1,
+              pc := upd s.pc t (if selfExitNow cfg t (s.cbWakes + 1) then .eRead else .wkChk) },
+     [s!"T{t} mtx-unlock mtx", s!"T{t} note cb_wake"])
   | .wkChk =>
     if s.toExit = WAKE then
-      some ({ s with pc := upd s.pc t .wkSet }, [s!"T{t} r to_exit {s.toExit}"])
-    else
-      let (s', evs) := advance s t s.plan
-      some (s', s!"T{t} r to_exit {s.toExit}" :: evs)
+      ({ s with pc := upd s.pc t .wkSet }, [s!"T{t} r to_exit {s.toExit}"])
+    else (advance cfg s t s.plan, s!"T{t} r to_exit {s.toExit}" :: advanceNotes t s.ioPend s.plan)
   | .wkSet =>
-    let (s', evs) := advance { s with toExit := EXIT } t s.plan
-    some (s', s!"T{t} w to_exit {EXIT}" :: evs)
+    (advance cfg { s with toExit := EXIT } t s.plan,
+     s!"T{t} w to_exit {EXIT}" :: advanceNotes t s.ioPend s.plan)
   | .chkExit =>
     if s.toExit = EXIT then
       -- leave the loop; clear phase: cb_clear on every registered context, in list order
-      some ({ release s s.reg with reg := [], clears := s.clears + 1, pc := upd s.pc t .exLock },
-            s!"T{t} r to_exit {s.toExit}" :: releaseNotes t s.reg)
-    else
-      some ({ s with pc := upd s.pc t .poll }, [s!"T{t} r to_exit {s.toExit}"])
+      ({ release s s.reg with reg := [], clears := s.clears + 1, pc := upd s.pc t .exLock },
+       s!"T{t} r to_exit {s.toExit}" :: releaseNotes cfg t s.reg)
+    else ({ s with pc := upd s.pc t .poll }, [s!"T{t} r to_exit {s.toExit}"])
   | .exLock =>
     -- on_exit: lock, release everything still queued
-    some ({ release s s.queue with mtx := some t, queue := [], exits := s.exits + 1,
-                                   pc := upd s.pc t .exUnlock },
-          s!"T{t} mtx-lock mtx" :: releaseNotes t s.queue)
+    ({ release s s.queue with mtx := some t, queue := [], exits := s.exits + 1,
+                              pc := upd s.pc t .exUnlock },
+     s!"T{t} mtx-lock mtx" :: releaseNotes cfg t s.queue)
   | .exUnlock =>
-    some ({ s with mtx := none, pc := upd s.pc t .done },
-          [s!"T{t} mtx-unlock mtx", s!"T{t} note run-returned"])
+    ({ s with mtx := none, pc := upd s.pc t .done },
+     [s!"T{t} mtx-unlock mtx", s!"T{t} note run-returned"])
   | .eRead =>
-    some ({ s with pc := upd s.pc t (if s.tid = t then .eSetE else .eSetW) }, [s!"T{t} r tid tid{s.tid}"])
-  | .eSetW =>
-    some ({ s with toExit := WAKE, pc := upd s.pc t .eWake }, [s!"T{t} w to_exit {WAKE}"])
+    ({ s with pc := upd s.pc t (if s.tid = t then .eSetE else .eSetW) }, [s!"T{t} r tid tid{s.tid}"])
+  | .eSetW => ({ s with toExit := WAKE, pc := upd s.pc t .eWake }, [s!"T{t} w to_exit {WAKE}"])
   | .eSetE =>
-    if s.fix.exitWake then
-      some ({ s with toExit := EXIT, pc := upd s.pc t .eWake }, [s!"T{t} w to_exit {EXIT}"])
-    else
-      let (s', evs) := exitReturn { s with toExit := EXIT } t
-      some (s', s!"T{t} w to_exit {EXIT}" :: evs)
-  | .eWake =>
-    let (s1, ev) := evWrite s t
-    let (s', evs) := exitReturn s1 t
-    some (s', ev :: evs)
+    if cfg.fix.exitWake then
+      ({ s with toExit := EXIT, pc := upd s.pc t .eWake }, [s!"T{t} w to_exit {EXIT}"])
+    else (exitReturn cfg { s with toExit := EXIT } t, s!"T{t} w to_exit {EXIT}" :: exitNotes cfg t)
+  | .eWake => (exitReturn cfg (evWrite cfg s) t, evWriteNote cfg s t :: exitNotes cfg t)
   | .wWrite left =>
-    let (s1, ev) := evWrite s t
-    some ({ s1 with pc := upd s1.pc t (if left ≤ 1 then .done else .wWrite (left - 1)) },
-          [ev, s!"T{t} note wake-done"])
-  | .hLock c rest =>
-    some ({ s with mtx := some t, queue := s.queue ++ [c], handed := s.handed ++ [c],
-                   pc := upd s.pc t (.hUnlock c rest) },
-          [s!"T{t} mtx-lock mtx"])
-  | .hUnlock c rest =>
-    some ({ s with mtx := none, pc := upd s.pc t (.hWake c rest) }, [s!"T{t} mtx-unlock mtx"])
-  | .hWake c rest =>
-    let (s1, ev) := evWrite s t
+    let s1 := evWrite cfg s
+    ({ s1 with pc := upd s1.pc t (if left ≤ 1 then .done else .wWrite (left - 1)) },
+     [evWriteNote cfg s t, s!"T{t} note wake-done"])
+  | .hLock i rest =>
+    ({ s with mtx := some t, queue := s.queue ++ [(t, i)], handed := s.handed ++ [(t, i)],
+              pc := upd s.pc t (.hUnlock i rest) },
+     [s!"T{t} mtx-lock mtx"])
+  | .hUnlock i rest =>
+    ({ s with mtx := none, pc := upd s.pc t (.hWake i rest) }, [s!"T{t} mtx-unlock mtx"])
+  | .hWake i rest =>
+    let s1 := evWrite cfg s
     match rest with
-    | [] => some ({ s1 with pc := upd s1.pc t .done }, [ev, s!"T{t} note hand-done c{c}"])
-    | g :: rest' =>
-      let j := s1.nextCtx
-      some ({ s1 with nextCtx := j + 1, bad := if g then s1.bad else j :: s1.bad,
-                      pc := upd s1.pc t (.hLock j rest') },
-            [ev, s!"T{t} note hand-done c{c}", s!"T{t} note hand c{j}"])
+    | [] => ({ s1 with pc := upd s1.pc t .done },
+             [evWriteNote cfg s t, s!"T{t} note hand-done {cfg.cname (t, i)}"])
+    | _ :: rest' =>
+      ({ s1 with pc := upd s1.pc t (.hLock (i + 1) rest') },
+       [evWriteNote cfg s t, s!"T{t} note hand-done {cfg.cname (t, i)}",
+        s!"T{t} note hand {cfg.cname (t, i + 1)}"])
   | .iWrite left =>
-    let (s1, woke) := signal s .io
-    some ({ s1 with ioPend := s1.ioPend + 1,
-                    pc := upd s1.pc t (if left ≤ 1 then .done else .iWrite (left - 1)) },
-          [s!"T{t} futex-wake evfd all woke={woke}", s!"T{t} note io-done"])
-  | .blocked => none
-  | .done => none
+    let s1 := signal cfg s .io
+    ({ s1 with ioPend := s1.ioPend + 1,
+               pc := upd s1.pc t (if left ≤ 1 then .done else .iWrite (left - 1)) },
+     [s!"T{t} futex-wake evfd all woke={woke cfg s}", s!"T{t} note io-done"])
+  | .blocked => (s, [])
+  | .done => (s, [])
+
+def step (cfg : Cfg) (s : St) (tok : Tok) : Option (St × List String) :=
+  if s.enabled cfg tok.tid then some (stepAt cfg s tok.tid (s.pc tok.tid)) else none
 
 /-! ## `muggle_socket_evloop_handle_destroy` after every thread has returned -/
 
-def finalize (s : St) : St :=
-  if s.fix.lateQueue then { release s s.queue with queue := [] } else s
+def finalize (cfg : Cfg) (s : St) : St :=
+  if cfg.fix.lateQueue then { release s s.queue with queue := [] } else s
 
 /-! ## What the harness reports at the end -/
 
-def allDone (s : St) : Bool := (List.range s.n).all fun t => s.pc t == .done
-def anyEnabled (s : St) : Bool := (List.range s.n).any fun t => s.enabled t
+def allDone (cfg : Cfg) (s : St) : Bool := (List.range cfg.n).all fun t => s.pc t == .done
+def anyEnabled (cfg : Cfg) (s : St) : Bool := (List.range cfg.n).any fun t => s.enabled cfg t
 
-def stateLines (s : St) : List String :=
-  (List.range s.n).map fun t =>
+def stateLines (cfg : Cfg) (s : St) : List String :=
+  (List.range cfg.n).map fun t =>
     match s.pc t with
     | .done => s!"state T{t} done -"
     | .blocked => s!"state T{t} futex evfd"
@@ -376,17 +394,24 @@ def stateLines (s : St) : List String :=
 
 def showB (b : Bool) : String := if b then "1" else "0"
 
-/-- per context: p|h (pre-registered / handed over), #registrations, #releases, freed, #use-after-free -/
-def ctxSummary (s : St) : List String :=
-  let f := finalize s
-  (List.range s.nextCtx).map fun c =>
-    let kind := if s.ioCtx ∧ c = 0 then "p" else "h"
-    let regs := (if s.ioCtx ∧ c = 0 then 1 else 0) + f.regLog.count c
-    s!"c{c}:{kind}{regs}{f.relLog.count c}{showB (c ∈ f.relLog)}0"
+/-- every context of the configuration, in the harness' order: the I/O context, then per thread -/
+def allCtx (cfg : Cfg) : List Ctx :=
+  (if cfg.ioCtx then [cfg.ioId] else []) ++
+  (List.range cfg.n).flatMap fun t =>
+    match cfg.role t with
+    | .hand prog => (List.range prog.length).map fun i => (t, i)
+    | _ => []
 
-def outcome (s : St) : String :=
-  let rr := showB (s.pc s.lt == .done)
+/-- per context: #registrations, #releases, freed, #use-after-free -/
+def ctxSummary (cfg : Cfg) (s : St) : List String :=
+  let f := finalize cfg s
+  (allCtx cfg).map fun c =>
+    let regs := (if c = cfg.ioId then 1 else 0) + f.regLog.count c
+    s!"{cfg.cname c}:{regs}{f.relLog.count c}{showB (c ∈ f.relLog)}0"
+
+def outcome (cfg : Cfg) (s : St) : String :=
+  let rr := showB (s.pc cfg.lt == .done)
   let head := s!"outcome run_returned={rr} exit_done={s.exitCalls} cb_wake={s.cbWakes} queued={s.queue.length}"
-  " ".intercalate (head :: ctxSummary s)
+  " ".intercalate (head :: ctxSummary cfg s)
 
 end MgModel.C14
